@@ -329,6 +329,23 @@ def _has_diag(root):
     return any(_is_diag(x) for x in walk(root))
 
 
+def _has_uncond_diag(S, root):
+    """a diagnostic inside `root` that runs whenever `root` runs (no further guard between them: a message printed
+    only for some output formats does not cover the failure)"""
+    if root is None:
+        return False
+    for x in walk(root):
+        if not _is_diag(x):
+            continue
+        inner = [g for g in S.guards(x) if g[0] == "switch" and S.contains(root, g[1]) or
+                 (g[0] != "switch" and S.contains(root, g[0]))]
+        # the do { } while (0) of the ERROR macro and the like carry no condition of their own
+        inner = [g for g in inner if not (g[0] != "switch" and strip_all(g[0]).get("iv") in ("0", "1"))]
+        if not inner:
+            return True
+    return False
+
+
 def _check_diagnostics(F, R, VS, main, prog):
     # failure sites: return/exit/assignment with value set containing a non-zero status, in main and
     # in the functions whose return value flows into main's exit status
@@ -374,14 +391,14 @@ def _check_diagnostics(F, R, VS, main, prog):
         for s in before:
             if s.get("k") == "IfStmt":
                 continue
-            if _has_diag(s):
+            if _has_uncond_diag(S, s):
                 ok = True
         if not ok:
             v = strip_all(val)
             if v.get("k") == "ConditionalOperator":
                 fc = v["cond"]
                 for s in before:
-                    if s.get("k") == "IfStmt" and _has_diag(s.get("then")):
+                    if s.get("k") == "IfStmt" and _has_uncond_diag(S, s.get("then")):
                         if any(same_expr(d, fc) for d in disjuncts(s["cond"])):
                             ok = True
                 if not ok:
